@@ -24,6 +24,17 @@ use std::time::Instant;
 
 pub const VERIF_ROOT: &str = "/verif";
 
+/// Root for evidence / replays / corpus / known findings. Always /verif for the registered checks; the
+/// mutant lab (tools/lab.py) points it at a scratch directory so that experiments cannot clobber evidence.
+pub fn verif_root() -> PathBuf {
+    std::env::var_os("BVERIF_ROOT").map(PathBuf::from).unwrap_or_else(|| PathBuf::from(VERIF_ROOT))
+}
+
+/// Root of the repository under test (run-time data files only; the code is linked at build time).
+pub fn repo_root() -> PathBuf {
+    std::env::var_os("BVERIF_REPO").map(PathBuf::from).unwrap_or_else(|| PathBuf::from("/repo"))
+}
+
 #[derive(Clone, Copy, Debug, PartialEq, Eq)]
 pub enum Tier {
     Quick,
@@ -393,7 +404,7 @@ pub struct KnownFinding {
 }
 
 pub fn load_known(prop: &str) -> Vec<KnownFinding> {
-    let path = Path::new(VERIF_ROOT).join("known_findings.json");
+    let path = verif_root().join("known_findings.json");
     let Ok(txt) = std::fs::read_to_string(&path) else { return vec![] };
     let Ok(v) = serde_json::from_str::<Value>(&txt) else {
         eprintln!("known_findings.json is not valid JSON");
@@ -689,7 +700,7 @@ where
 }
 
 fn load_corpus<C: DeserializeOwned>(id: &str) -> Vec<C> {
-    let dir = Path::new(VERIF_ROOT).join("corpus").join(id);
+    let dir = verif_root().join("corpus").join(id);
     let mut files: Vec<PathBuf> = match std::fs::read_dir(&dir) {
         Ok(rd) => rd.filter_map(|e| e.ok().map(|e| e.path())).filter(|p| p.extension().map(|x| x == "json").unwrap_or(false)).collect(),
         Err(_) => return vec![],
@@ -715,7 +726,7 @@ fn load_corpus<C: DeserializeOwned>(id: &str) -> Vec<C> {
 }
 
 fn write_replay<C: Serialize>(spec: &Spec<C>, opts: &Opts, f: &Failure<C>) -> PathBuf {
-    let dir = Path::new(VERIF_ROOT).join("replays");
+    let dir = verif_root().join("replays");
     let _ = std::fs::create_dir_all(&dir);
     let path = dir.join(format!("{}-{}-{}.json", spec.id, opts.tier.name(), opts.seed));
     let (msg, sig) = match &f.outcome.verdict {
@@ -792,7 +803,7 @@ where
 }
 
 fn write_evidence<C>(spec: &Spec<C>, opts: &Opts, st: &Stats, t0: Instant, violations: i64, corpus_n: usize, infra: Option<&str>) {
-    let dir = Path::new(VERIF_ROOT).join("evidence");
+    let dir = verif_root().join("evidence");
     let _ = std::fs::create_dir_all(&dir);
     let mut samples: Vec<Value> = st.samples_nt.clone();
     samples.extend(st.samples_tr.iter().cloned());
